@@ -6,7 +6,7 @@
 (* documented depth table) must satisfy the four clauses of the property;   *)
 (* with Bug # "none" TLC must find the corresponding violation.             *)
 EXTENDS CopySem
-CONSTANTS MRoutes, MOps, MClasses, MConfigs, MaxSteps, MaxCopies, Bug
+CONSTANTS MRoutes, MOps, MClasses, MConfigs, XrefShapes, MaxSteps, MaxCopies, Bug
 VARIABLES g, src, cpy, cls, conf, route, d, nsteps, ncopies, last
 vars == <<g, src, cpy, cls, conf, route, d, nsteps, ncopies, last>>
 
@@ -23,7 +23,15 @@ MatrixHeap == Heap(<<"Matrix", "Namespace", "Taxon", "Taxon", "Sequence", "Seque
                    << <<2, 5, 6, 7, 10>>, <<3, 4>>, <<>>, <<>>, <<3>>, <<4>>, <<1, 8, 9>>, <<>>, <<1>>, <<>> >>)
 NamespaceHeap == Heap(<<"Namespace", "Taxon", "Taxon", "AnnotationSet", "Annotation", "Annotation", "list", "list">>,
                       << <<4, 7, 2, 3>>, <<8>>, <<>>, <<1, 5, 6>>, <<>>, <<1>>, <<>>, <<>> >>)
-Shapes == [Tree |-> {TreeAnnotated, TreeBare}, TreeList |-> {TreeListHeap}, Matrix |-> {MatrixHeap}, Namespace |-> {NamespaceHeap}]
+\* cross-references between the members of one container: a node of the first tree refers to a node of the
+\* second tree (an extracted tree listed before the tree it was extracted from), and the other way round
+XrefFirst == Heap(<<"TreeList", "Namespace", "Taxon", "Tree", "Node", "Edge", "Tree", "Node", "Edge">>,
+                  << <<2, 4, 7>>, <<3>>, <<>>, <<2, 5>>, <<6, 3, 8>>, <<>>, <<2, 8>>, <<9, 3>>, <<>> >>)
+XrefLast == Heap(<<"TreeList", "Namespace", "Taxon", "Tree", "Node", "Edge", "Tree", "Node", "Edge">>,
+                 << <<2, 4, 7>>, <<3>>, <<>>, <<2, 5>>, <<6, 3>>, <<>>, <<2, 8>>, <<9, 3, 5>>, <<>> >>)
+Shapes == [Tree |-> {TreeAnnotated, TreeBare},
+           TreeList |-> {TreeListHeap} \cup (IF XrefShapes THEN {XrefFirst, XrefLast} ELSE {}),
+           Matrix |-> {MatrixHeap}, Namespace |-> {NamespaceHeap}]
 
 \* every initial graph in every object configuration that applies to its class
 Init == /\ cls \in MClasses /\ conf \in MConfigs /\ ConfApplies(cls, conf)
